@@ -277,8 +277,11 @@ def main():
             with open(tmp, "w") as fh:
                 json.dump(obj, fh, **kw)
             os.replace(tmp, path)
+        # re-read just before writing: another freeze (other property / tier) may have finished since this run started
+        okeys = load_json(os.path.join(VERIF, "obligation_keys.json"), {})
         okeys.update(new_keys)
         _dump(okeys, os.path.join(VERIF, "obligation_keys.json"), indent=0, sort_keys=True)
+        floors = load_json(os.path.join(VERIF, "floors.json"), {})
         floors.update(new_floors)
         _dump(floors, os.path.join(VERIF, "floors.json"), indent=1, sort_keys=True)
         print("floors frozen:", json.dumps(new_floors))
